@@ -37,6 +37,13 @@ Fixpoint steps_sum (dl : list directive) (V : commodity) (srcs : list account) (
   | a :: rest => (row_steps_tight dl V a W E coms + steps_sum dl V rest W E coms)%Z
   end.
 
-(* executable: the asset/liability accounts of the journal that land on b and pass --account *)
+(* executable: the accounts of the journal's bookings that land on b and pass --account, each once *)
+Fixpoint dedup_acc (l : list account) : list account :=
+  match l with
+  | [] => []
+  | x :: r => if existsb (acc_eqb x) r then dedup_acc r else x :: dedup_acc r
+  end.
+
 Definition sources_of (cfg : balance_cfg) (dl : list directive) (b : account) : list account :=
-  filter (fun a => lands_on cfg b a && acc_pass cfg a) (al_accounts dl).
+  dedup_acc (filter (fun a => lands_on cfg b a && acc_pass cfg a)
+                    (map (fun dp : Z * posting => p_acc (snd dp)) (flat_postings dl))).
